@@ -18,6 +18,7 @@ LEVELS = {
     "tf+fill": dict(timeframe="T2", timeframe_fill=True),
     "HA": dict(candlestick_type="HA"),
     "lifespan": dict(candles_lifespan=timedelta(minutes=3)),
+    "fill": dict(timeframe_fill=True),        # Hexital-level fill, members bring their own timeframe; the stream has a hole
 }
 
 
@@ -28,7 +29,7 @@ def obligations(tier):
         heavy = name in HEAVY
         forms = FORMS if (tier == "thorough" or not heavy) else (FORMS[idx % 3],)
         for form in forms:
-            levels = list(LEVELS) if tier == "thorough" else (["plain", list(LEVELS)[1 + idx % 4]] if not heavy else ["plain"])
+            levels = list(LEVELS) if tier == "thorough" else (["plain", list(LEVELS)[1 + idx % 5]] if not heavy else ["plain"])
             for level in levels:
                 n = w + (2 if heavy else 3) + (1 if tier == "thorough" else 0)
                 if name == "ADX" and tier == "quick":
@@ -78,9 +79,16 @@ def run(ctx, P):
     n = P["n"]
     level = dict(LEVELS[P["level"]])
     cs = mk_candles(ctx, n)
+    if P["level"] == "fill":
+        # a hole of three whole T2 buckets after the second candle
+        for i, c in enumerate(cs):
+            if i >= 2:
+                c.timestamp = ctx.const_time(GRID0 + 60 * (i + 1 + 7))
     base = [dict(ts=ctx.sec_of(c.timestamp), open=c.open, high=c.high, low=c.low, close=c.close, volume=c.volume) for c in cs]
     # members: the indicator under test (no own timeframe), a partner on its own timeframe, and the same class again on a timeframe
     mtf = P.get("mtf") if not level.get("timeframe") else None
+    if P["level"] == "fill" and mtf is None:
+        mtf = "T3"
     members = [(spec, {}), (("ind", "WMA", dict(period=4)), dict(timeframe="T2") if not level.get("timeframe") else {})]
     if mtf:
         members.append((spec, dict(timeframe=mtf)))
@@ -119,7 +127,7 @@ def run(ctx, P):
 
 
 META = dict(
-    bounds=dict(quick="every catalogue indicator and analysis wrapper as first member (object/dict/settings form), partner WMA(4) on T2, a third member = same class on T2/T3; Hexital-level plain / T2 / T2+fill / HA / 3-minute lifespan; n = warm-up+3..4 candles; schedules: 2 preloaded + singles, chunk + single from empty, all at construction",
+    bounds=dict(quick="every catalogue indicator and analysis wrapper as first member (object/dict/settings form), partner WMA(4) on T2, a third member = same class on T2/T3; Hexital-level plain / T2 / T2+fill / HA / 3-minute lifespan / fill-only over a stream with a three-bucket hole; n = warm-up+3..4 candles; schedules: 2 preloaded + singles, chunk + single from empty, all at construction",
                 thorough="all three forms x all five Hexital-level settings for every indicator, n+1"),
     stubs=["exact real arithmetic, uninterpreted rounding and products"],
     assumptions=["Hexital-level timeframe is combined only with members that have no timeframe of their own (effective configuration = the Hexital's)"],
